@@ -1406,7 +1406,9 @@ func recordLifecycle(name string, sc *scenario, res *result, expCls string) {
 		ev.Class(name, "keys-in-ring:"+countClass(len(sc.Keys), ksz))
 	}
 	if expCls != "" && expCls != "wipeout" {
-		ev.Class(name, "expect:"+expCls)
+		if sc.Op != "rotate" { // for rotation the expectation is the case class itself
+			ev.Class(name, "expect:"+expCls)
+		}
 		if !strings.HasSuffix(expCls, "enabled-at-once") && expCls != "enabled-exists" {
 			nontrivial = nontrivial || sc.Op == "rotate"
 		}
